@@ -43,7 +43,7 @@ def _check_class(chk, ex, found, mod, cls):
         opens = [n for n in calls if (isinstance(n.func, ast.Name) and n.func.id == "open") or (isinstance(n.func, ast.Attribute) and n.func.attr in ("open", "fdopen"))]
         param = save.node.args.args[1].arg if len(save.node.args.args) > 1 else None
         # nothing but np.savez (and pure path conversions) is handed the file name
-        PURE = {"Path", "str", "fspath", "abspath", "expanduser", "resolve", "with_suffix"}
+        PURE = {"Path", "str", "fspath", "abspath", "expanduser", "resolve", "with_suffix", "print", "debug", "info", "warning", "format", "repr"}
         def fname_(n):
             return n.func.id if isinstance(n.func, ast.Name) else getattr(n.func, "attr", "?")
         touching = [fname_(n) for n in calls if n not in savez and fname_(n) not in PURE and any(isinstance(x, ast.Name) and x.id == param for a_ in list(n.args) + [k.value for k in n.keywords] for x in ast.walk(a_))]
